@@ -358,16 +358,21 @@ def _r6(ctx):
     dst = ctx.func("ISASemantics._get_regular_destination_operands")
 
     def by_isa(f):
+        """{case: returned expression}: the return statement that executes where the case's condition holds (if / elif
+        branch or after guard clauses - facts, not syntax)"""
         out = {}
-        for n in ast.walk(f.node):
-            if isinstance(n, ast.If):
-                t = U(n.test)
-                rets = [s for s in n.body if isinstance(s, ast.Return)]
-                if not rets:
-                    continue
-                key = "single" if "len(" in t and "== 1" in t else "x86" if "'x86'" in t else "aarch64" if "'aarch64'" in t else None
-                if key:
-                    out[key] = rets[0].value
+        for r_ in [x for x in ast.walk(f.node) if isinstance(x, ast.Return) and x.value is not None]:
+            facts = C.norm_facts(r_)
+            pos = [t for t, p_ in facts if p_]
+            key = None
+            if any("len(" in t and "== 1" in t for t in pos):
+                key = "single"
+            elif any("'x86'" in t and "==" in t for t in pos):
+                key = "x86"
+            elif any("'aarch64'" in t and "==" in t for t in pos):
+                key = "aarch64"
+            if key:
+                out.setdefault(key, r_.value)
         return out
 
     s, d = by_isa(src), by_isa(dst)
@@ -467,6 +472,14 @@ def _r7(ctx):
               f.qname, "edge direction")
     if e and any(k.arg == "latency" for k in e[0].keywords):
         wname = [U(k.value) for k in e[0].keywords if k.arg == "latency"][0]
+        for _ in range(3):
+            # the weight handed over through a plain copy (`w2 = w` on every path): follow it
+            ds = [a for a in ast.walk(loop) if isinstance(a, ast.Assign) and U(a.targets[0]) == wname]
+            srcs = {U(a.value) for a in ds if isinstance(a.value, ast.Name)}
+            if ds and len(srcs) == 1 and all(isinstance(a.value, ast.Name) for a in ds):
+                wname = srcs.pop()
+            else:
+                break
         base = [a for a in ast.walk(loop) if isinstance(a, ast.Assign) and U(a.targets[0]) == wname and isinstance(a.value, ast.IfExp)]
         ok = False
         if base:
@@ -492,7 +505,11 @@ def _r7(ctx):
                   "edges tagged p_indexed do not get the model's p_index_latency", f.qname, "write-back weight")
         if wb and base:
             cfg = C.cfg_of(f)
-            ctx.check(cfg.dominates(base[0], wb[0]) and cfg.dominates(wb[0], e[0]), "R7",
+            inner = C.enclosing_loop(e[0])
+            late = [a for a in ast.walk(loop) if isinstance(a, (ast.Assign, ast.AugAssign)) and U(
+                a.targets[0] if isinstance(a, ast.Assign) else a.target) == wname and inner is not None
+                and cfg.reachable(e[0], a, within=inner)]
+            ctx.check(cfg.dominates(base[0], e[0]) and not late, "R7",
                       "weight is fully determined before the edge is added", f.where(e[0]),
                       "the edge is added before its weight is final", f.qname, "weight before add_edge")
     # load node edge
